@@ -74,7 +74,7 @@ func urlReplay(s *Summary, raw json.RawMessage) {
 			nextra := it % 3
 			r := rux.New()
 			if strict {
-				r = rux.New(rux.StrictLastSlash)
+				r = newRouter(rux.StrictLastSlash)
 			}
 			r.GET("/zz/{decoy}/{d2}/{d3}/{d4}", nopHandler) // decoys registered before and after
 			target := r.AddNamed("target", c.Pat, nopHandler)
